@@ -334,10 +334,12 @@ Proof.
     pose proof (ubound_sound UFUEL F c st i u HF Ui) as Bi. pose proof (oval_range c i) as Ri.
     split; [exact R2|]. exists (oval c i). split; [lia|]. intros Lt. rewrite <- HD.
     destruct (ex_A X A asz HE id) as [A1 _]. rewrite Z.mod_small by lia. lia. }
-  destruct (resolve RFUEL F asz q1) as [[id1|] [o1|]] eqn:R1; destruct (ubound UFUEL F q2) as [u2|] eqn:U2;
-    try (inversion H; subst; apply (G q1 q2 R1 U2); lia);
-    destruct (resolve RFUEL F asz q2) as [[id2|] [o2|]] eqn:R2; destruct (ubound UFUEL F q1) as [u1|] eqn:U1;
-    try discriminate; inversion H; subst; apply (G q2 q1 R2 U1); lia.
+  assert (T : forall b i, try_bp F asz b i = Some (id, o, u) -> resolve RFUEL F asz b = (Some id, Some o) /\ ubound UFUEL F i = Some u).
+  { intros b i T. unfold try_bp in T. destruct (resolve RFUEL F asz b) as [[id1|] [o1|]]; try discriminate.
+    destruct (ubound UFUEL F i) as [u1|]; [|discriminate]. inversion T; subst. split; reflexivity. }
+  destruct (try_bp F asz q1 q2) as [r1|] eqn:T1.
+  - inversion H; subst r1. destruct (T _ _ T1) as [Rb Ui]. apply (G q1 q2 Rb Ui). lia.
+  - destruct (T _ _ H) as [Rb Ui]. apply (G q2 q1 Rb Ui). lia.
 Qed.
 
 Lemma sym_locU_sound : forall F c st args r s k, all_hold c st F ->
